@@ -206,6 +206,25 @@ def element_level_oracle(run):
                     except Exception as ex:  # noqa
                         run.fail('escape-raises', 'assigning a textual datatype object inside a message raised',
                                  version=v, cls='ST', ec=ec, input=s, exc=repr(ex))
+                # delimiters changed AFTER construction (MSH-1/MSH-2 assigned directly): leaves are escaped with
+                # the set the message declares now
+                if v >= '2.3.1' and k and k % 3 == 0:
+                    try:
+                        m3 = Message('ADT_A01', version=v)
+                        m3.msh.msh_7 = '20200101'
+                        _ = m3.to_er7()
+                        m3.msh.msh_1 = f
+                        m3.msh.msh_2 = c + r + e + sb + (t if (t and v >= '2.7') else '')
+                        m3.msh.msh_10 = ST(s)
+                        out3 = m3.to_er7()
+                        leaf3 = ST(s).to_er7(d if (t and v >= '2.7') or not t else {kk: vv for kk, vv in d.items() if kk != 'TRUNCATION'})
+                        if leaf3 and leaf3 not in out3:
+                            run.fail('datatype-object-encoded-differently', 'after MSH-1/MSH-2 were assigned new delimiters '
+                                     'a textual leaf is not escaped with the set the message declares', version=v, ec=ec,
+                                     input=s, output=out3, expected_leaf=leaf3)
+                    except Exception as ex:  # noqa
+                        run.fail('escape-raises', 'changing MSH-1/MSH-2 and encoding raised', version=v, cls='ST', ec=ec,
+                                 input=s, exc=repr(ex))
                 leaf = ST(s).to_er7(d)
                 if leaf == leaf.strip() and leaf:
                     text = 'ZZZ' + f + leaf
@@ -230,9 +249,12 @@ def main(argv=None):
     classes_of_family = {}
     seen = set()
     for v, name, cls, fid in classes:
-        if id(cls) in seen:
+        # a class is checked once per era: from v2.7 on the truncation character must be escaped as well,
+        # so a class shared with older versions is judged again with the >= 2.7 expectations
+        key = (id(cls), v >= '2.7')
+        if key in seen:
             continue
-        seen.add(id(cls))
+        seen.add(key)
         classes_of_family.setdefault(fid, []).append((v, name, cls))
     # ---- cases
     cases = []   # (fid, ec, input, expected)
